@@ -103,6 +103,7 @@ func applyChange(op scn.Op) {
 type step struct {
 	ev    scn.Event
 	sevs  []int
+	fs    []bool
 	texts []string
 }
 
@@ -113,6 +114,7 @@ func prepare(evs []scn.Event) []step {
 		if ev.Kind == scn.OpTracer {
 			for _, l := range ev.Trace {
 				out[i].sevs = append(out[i].sevs, l.Sev)
+				out[i].fs = append(out[i].fs, l.F)
 				out[i].texts = append(out[i].texts, l.Text)
 			}
 		}
@@ -145,11 +147,11 @@ func run(steps []step) {
 				traced, untraced = pkgb.Tracer, pkgb.Untraced
 			}
 			for k := 0; k < st.ev.EchoBefore; k++ {
-				untraced(st.sevs[n-1:], st.texts[n-1:])
+				untraced(st.sevs[n-1:], st.fs[n-1:], st.texts[n-1:])
 			}
-			traced(st.sevs, st.texts)
+			traced(st.sevs, st.fs, st.texts)
 			for k := 0; k < st.ev.EchoAfter; k++ {
-				untraced(st.sevs[n-1:], st.texts[n-1:])
+				untraced(st.sevs[n-1:], st.fs[n-1:], st.texts[n-1:])
 			}
 		case scn.OpLevel, scn.OpPkg, scn.OpUnset:
 			applyChange(st.ev.Op)
